@@ -20,7 +20,7 @@ EXPLANATION = (
     "written is total for the reader: every value a per-format IntEnum alias can hold is a ReactionType value; R4 Network.write emits exactly one "
     "terminated record per reaction; R5 sibling laws: for every format class and database code, the native class either refuses the exported type "
     "or its template is algebraically the law the format class uses (symbols unified through the registry names), including grain-delegated types; "
-    "R6 export wiring: Network.export writes reactions.naunet in format 'naunet', NetworkConfiguration records exactly that file/format and exports "
+    "R6 export wiring: Network.export writes reactions.naunet in format 'naunet' on every path that continues to the configuration and sources, NetworkConfiguration records exactly that file/format and exports "
     "binding energies / yields of every surface species, and 'naunet' maps to the class whose __format__ wrote the file.")
 ASSUMPTIONS = [
     "equality 'to printed precision' of particular numbers is a property of Python's float formatting, not decided",
@@ -377,6 +377,36 @@ def _r6(ctx, pkg):
     w = [c for c in ast.walk(fn) if isinstance(c, ast.Call) and ast.unparse(c.func) == "self.write"]
     ok = len(w) == 1 and ast.unparse(w[0].args[0]) == "reaction_file" and ast.unparse(w[0].args[1]) == "'naunet'" and "reaction_file = path / 'reactions.naunet'" in src
     ctx.check(ok, "R6", "Network.export:reaction-file", (NET, fn.lineno), "export writes path/'reactions.naunet' in the 'naunet' format", found=ast.unparse(w[0]) if w else "")
+    # ... on EVERY path that goes on to write the configuration and the sources (must-pass-through): the exchange file and the
+    # generated code describe the same network also when the project directory already exists
+    if len(w) == 1:
+        def terminates(stmts):
+            return bool(stmts) and isinstance(stmts[-1], (ast.Return, ast.Raise))
+
+        def dominating(stmts):
+            """does the write execute on every path that falls out of `stmts`?  -> True / False / None (not in here)"""
+            for st in stmts:
+                if any(x is w[0] for x in ast.walk(st)):
+                    if isinstance(st, ast.Expr) and st.value is w[0]:
+                        return True
+                    if isinstance(st, ast.If):
+                        arms = [st.body, st.orelse]
+                        res = [dominating(a) for a in arms]
+                        for a, r in zip(arms, res):
+                            if r is None and not terminates(a):
+                                return False        # an arm without the write falls through
+                            if r is False:
+                                return False
+                        return True
+                    return False
+            return None
+        dom = dominating(fn.body)
+        later = [c for c in ast.walk(fn) if isinstance(c, ast.Call) and ast.unparse(c.func) in ("tl.render", "outf.write", "NetworkConfiguration") and c.lineno > w[0].lineno]
+        ctx.check(dom is True and len(later) >= 2, "R6", "Network.export:reaction-file on every continuing path", (NET, w[0].lineno),
+                  "every path that reaches the configuration/source rendering has (re)written reactions.naunet" if dom else
+                  "reactions.naunet is written only on some of the paths that go on to regenerate the configuration and sources: re-exporting into an existing project "
+                  "leaves the OLD reaction file next to NEW sources", expected="self.write(reaction_file, 'naunet') unconditionally before the configuration is written",
+                  found="write nested under a condition whose other arm continues")
     ci = pkg.cls("NetworkConfiguration")
     init = ci.methods["__init__"]
     ctx.saw(CONF, "NetworkConfiguration.__init__")
@@ -411,6 +441,8 @@ def _r6(ctx, pkg):
 
 
 MUTANTS = [
+    {"name": "export-writes-only-new-file", "file": NET, "old": '        if os.path.exists(reaction_file) and not overwrite:\n            logger.warning("Reaction file exists! Stop exporting!")\n            return\n\n        self.write(reaction_file, "naunet")\n',
+     "new": '        if not os.path.exists(reaction_file):\n            self.write(reaction_file, "naunet")\n\n        elif not overwrite:\n            logger.warning("Reaction file exists! Stop exporting!")\n            return\n', "rules": ["R6"]},
     {"name": "writer-beta-gamma-swapped", "file": RFILE, "old": '                    f"{self.beta:10.3e}",\n                    f"{self.gamma:10.3e}",\n                    f"{self.temp_min:9.2f}",', "new": '                    f"{self.gamma:10.3e}",\n                    f"{self.beta:10.3e}",\n                    f"{self.temp_min:9.2f}",', "rules": ["R1"]},
     {"name": "fill-count", "file": RFILE, "old": 'rnames = _fill_list([f"{x:>12}" for x in rnames], 3, dummy)', "new": 'rnames = _fill_list([f"{x:>12}" for x in rnames], 4, dummy)', "rules": ["R1"]},
     {"name": "type-name-written", "file": RFILE, "old": 'f"{self.reaction_type:>4}",', "new": 'f"{self.reaction_type.name:>4}",', "rules": ["R1"]},
@@ -425,5 +457,7 @@ MUTANTS = [
 ]
 MUTANTS.append({"name": "source-read-verbatim", "file": RFILE, "old": "        self.source = source.strip()\n", "new": "        self.source = source\n", "rules": ["R2"]})
 BENIGN = [
+    {"name": "export-write-in-else-of-stop", "file": NET, "old": '        if os.path.exists(reaction_file) and not overwrite:\n            logger.warning("Reaction file exists! Stop exporting!")\n            return\n\n        self.write(reaction_file, "naunet")\n',
+     "new": '        if os.path.exists(reaction_file) and not overwrite:\n            logger.warning("Reaction file exists! Stop exporting!")\n            return\n        else:\n            self.write(reaction_file, "naunet")\n'},
     {"name": "reader-line-rstripped", "file": RFILE, "old": 'idx, *rps, a, b, c, lt, ut, rtype, source = react_string.split(",")', "new": 'idx, *rps, a, b, c, lt, ut, rtype, source = react_string.rstrip("\\n").split(",")'},
 ]
